@@ -206,8 +206,8 @@ def _windows(npos, wshape):
         ok = out.shape == (npos,) + tuple(wshape)
         if ok:
             for j in range(npos):
-                r0 = c.concretize(z3.ToInt(_real(_z(P[j, 0])) - wshape[0] // 2 + z3.RealVal("1/2")))
-                r1 = c.concretize(z3.ToInt(_real(_z(P[j, 1])) - wshape[1] // 2 + z3.RealVal("1/2")))
+                r0 = c.concretize(sx._round_half_even(_real(_z(P[j, 0])) - wshape[0] // 2))  # xp.rint: half to even
+                r1 = c.concretize(sx._round_half_even(_real(_z(P[j, 1])) - wshape[1] // 2))
                 ref = A[0][(r0 + np.arange(wshape[0]))[:, None] % H, (r1 + np.arange(wshape[1]))[None] % W]
                 ok = ok and bool(np.array_equal(out[j], ref))
         c.prove("windows.every_probe_window_is_the_periodic_window_at_its_rounded_position", ok, replay=rp)
